@@ -44,21 +44,29 @@ Ending(e) == CASE e = "fin" -> <<[op |-> "fin", sid |-> 0]>>
 
 GET == <<71, 69, 84>>
 Uri == <<104, 116, 116, 112, 115, 58, 47, 47, 97, 47>>       \* https://a/
-ClientProg == <<[op |-> "send_request", method |-> GET, uri |-> Uri, fields |-> <<>>],
-                [op |-> "recv_response"], [op |-> "recv_body"], [op |-> "recv_trailers"]>>
+\* split: "no" = the request stream is read whole; "early" = RequestStream::split() right after the message head was received (whatever
+\* has arrived beyond it is still buffered); "mid" = split() after the first piece of body was handed out (with byte-wise delivery: inside a
+\* DATA frame).  The receiving half goes on reading; what the application is told must not depend on it.
+Reading(split) == CASE split = "early" -> <<[op |-> "split_keep_recv"], [op |-> "recv_body"], [op |-> "recv_trailers"]>>
+                    [] split = "mid" -> <<[op |-> "recv_body", split_after |-> 1], [op |-> "recv_trailers"]>>
+                    [] OTHER -> <<[op |-> "recv_body"], [op |-> "recv_trailers"]>>
+ClientProg(split) == <<[op |-> "send_request", method |-> GET, uri |-> Uri, fields |-> <<>>], [op |-> "recv_response"]>> \o Reading(split)
 
-Scn(seq, e, how, role) ==
+Scn(seq, e, how, role, split) ==
     LET frames == [i \in 1..Len(seq) |-> FrameOf(seq[i], role, \A k \in 1..(i - 1) : seq[k] # "H")]
-        pre == IF role = "client" THEN <<[op |-> "request", task |-> "r1", prog |-> ClientProg]>> ELSE <<>>
-    IN [role |-> role, cfg |-> [grease |-> FALSE], letters |-> seq, ending |-> e, chunking |-> how,
+        pre == IF role = "client" THEN <<[op |-> "request", task |-> "r1", prog |-> ClientProg(split)]>> ELSE <<>>
+    IN [role |-> role, cfg |-> [grease |-> FALSE], letters |-> seq, ending |-> e, chunking |-> how, split |-> split,
+        default_handler |-> <<[op |-> "resolve"]>> \o Reading(split),
         steps |-> pre \o Chunks(frames, how) \o Ending(e)]
 
 VARIABLES seq, out
 Init == seq = <<>> /\ out = <<>>
 \* a truncated frame can only be the last thing on the stream
 Extend == out = <<>> /\ Len(seq) < N /\ (IF seq = <<>> THEN TRUE ELSE seq[Len(seq)] \notin {"PD", "PX"}) /\ \E x \in Letters : seq' = Append(seq, x) /\ UNCHANGED out
+\* (an early split differs from none only when more than the head has been buffered: one chunk; a late one needs a body piece)
+Splits(how) == {"no"} \cup (IF how = "one" THEN {"early"} ELSE {}) \cup (IF \E i \in 1..Len(seq) : seq[i] \in {"Dn", "PD"} THEN {"mid"} ELSE {})
 Finish == out = <<>> /\ \E e \in {"fin", "reset", "open"}, how \in {"one", "frames", "bytes"}, role \in {"server", "client"} :
-             out' = Scn(seq, e, how, role) /\ UNCHANGED seq
+             \E split \in Splits(how) : out' = Scn(seq, e, how, role, split) /\ UNCHANGED seq
 Next == Extend \/ Finish
 Spec == Init /\ [][Next]_<<seq, out>>
 Emit == out = <<>> \/ PrintT(<<"SCN", ToJson(out)>>)
